@@ -16,6 +16,9 @@ CONSTANTS
   WksCheck = TRUE
   SnlClean = TRUE
   KeepDead = TRUE
+  Miu <- MiuAB
+  Lens = {1}
+  HdrInMiu = FALSE
 VIEW View
 INVARIANT OneAddrPerSocket
 INVARIANT NoDoubleAlloc
@@ -26,4 +29,5 @@ PROPERTY ResolveRight
 PROPERTY InUseRight
 PROPERTY ConnectByName
 PROPERTY DatagramStep
+PROPERTY Delivered
 CHECK_DEADLOCK FALSE
